@@ -30,10 +30,14 @@ import (
 
 var verifCreation = time.Unix(0, 1481144012969203276)
 
+// verifStoreProto is the -pre1.0_protobuf mode the fixtures run in (the default of the
+// binary is true; a network that still runs with false stores JSON).
+var verifStoreProto = true
+
 func verifFlags(dir string) {
 	*raftDir = dir
 	*network = "robustirc.net"
-	*useProtobuf = true
+	*useProtobuf = verifStoreProto
 	flag.Set("log_dir", dir)
 }
 
@@ -44,6 +48,13 @@ func raftLogOf(e *verifgen.Entry) *raft.Log {
 	if m.Session.Id != 0 {
 		// session ids are message ids: raft index + robust.MessageOffset
 		m.Session.Id = robust.IdFromRaftIndex(m.Session.Id)
+	}
+	if !verifStoreProto {
+		b, err := json.Marshal(m)
+		if err != nil {
+			panic(err)
+		}
+		return &raft.Log{Index: e.Id, Term: 1, Type: raft.LogCommand, Data: b, AppendedAt: time.Unix(0, e.UnixNano)}
 	}
 	b, err := proto.Marshal(m.ProtoMessage())
 	if err != nil {
@@ -200,11 +211,11 @@ func newFixture(dir string) *fixture {
 	if err != nil {
 		panic(err)
 	}
-	logstore, err := raftstore.NewLevelDBStore(filepath.Join(dir, "raftlog"), false, true)
+	logstore, err := raftstore.NewLevelDBStore(filepath.Join(dir, "raftlog"), false, verifStoreProto)
 	if err != nil {
 		panic(err)
 	}
-	ircStore, err = raftstore.NewLevelDBStore(filepath.Join(dir, "irclog"), false, true)
+	ircStore, err = raftstore.NewLevelDBStore(filepath.Join(dir, "irclog"), false, verifStoreProto)
 	if err != nil {
 		panic(err)
 	}
@@ -320,7 +331,7 @@ func (f *fixture) restart() {
 	if err != nil {
 		panic(err)
 	}
-	ircStore, err = raftstore.NewLevelDBStore(filepath.Join(f.dir, "irclog"), false, true)
+	ircStore, err = raftstore.NewLevelDBStore(filepath.Join(f.dir, "irclog"), false, verifStoreProto)
 	if err != nil {
 		panic(err)
 	}
